@@ -143,6 +143,8 @@ func builtinIntrinsics() map[string]intrinsic {
 		}
 		return p.st.BV(64, uint64(def))
 	}
+	// verifAllocCheck(v): native-only twin of the allocation-site obligation (see the runtime template)
+	m["@verifAllocCheck"] = func(p *Path, fr *frame, pos token.Pos, args []Value) Value { return nil }
 	// verifCallDepth() int: the current call depth (natively: the number of logical stack frames)
 	m["@verifCallDepth"] = func(p *Path, fr *frame, pos token.Pos, args []Value) Value {
 		return p.st.BV(64, uint64(p.depth))
